@@ -1,7 +1,7 @@
 (* C13 — Overlap resolution returns a conflict-free subset of the lints.
    This file pins the statements; it contains nothing but `exact`. *)
 Require Import Base Overlap Suggestion OverlapProofs SuggestionProofs BackToFront Tables_overlapcallers OverlapCallers.
-Require Import C13Algebra C13Callers C13CallersProofs.
+Require Import C13Algebra C13Callers C13CallersProofs C13Maximal.
 From Coq Require Import Sorting.Sorted Sorting.Permutation.
 
 (* nothing invented, nothing altered: the result is a subsequence of the key-sorted input, the sort
@@ -250,6 +250,84 @@ Theorem C13_callers_shape : overlap_call_skeletons = expected_skeletons /\ overl
 Proof. exact overlap_call_skeletons_ok. Qed.
 Check C13_callers_shape : overlap_call_skeletons = expected_skeletons /\ overlap_call_census = expected_census.
 Print Assumptions C13_callers_shape.
+
+(* ================= phase 4: maximality; what the CLI's printed report shows ================= *)
+
+(* a dropped lint that covers a character shares its first character with a kept lint (common character AND Span::overlaps_with both ways) *)
+Theorem C13_dropped_conflicts : forall ls d, In d (dropped ls) -> lstart d < lend d ->
+  exists k, In k (remove_overlaps ls) /\ covers k (lstart d) /\ covers d (lstart d) /\
+            overlaps (lspan k) (lspan d) = true /\ overlaps (lspan d) (lspan k) = true.
+Proof. exact ro_dropped_conflicts. Qed.
+Check C13_dropped_conflicts : forall ls d, In d (dropped ls) -> lstart d < lend d ->
+  exists k, In k (remove_overlaps ls) /\ covers k (lstart d) /\ covers d (lstart d) /\
+            overlaps (lspan k) (lspan d) = true /\ overlaps (lspan d) (lspan k) = true.
+Print Assumptions C13_dropped_conflicts.
+
+(* maximal in the greedy sense: a dropped non-empty lint put back ANYWHERE among the kept ones yields two lints sharing a character (no premise on the other spans) *)
+Theorem C13_maximal : forall ls d ks, In d (dropped ls) -> lstart d < lend d -> Permutation ks (d :: remove_overlaps ls) ->
+  ~ ForallOrdPairs no_common_char ks.
+Proof. exact ro_maximal. Qed.
+Check C13_maximal : forall ls d ks, In d (dropped ls) -> lstart d < lend d -> Permutation ks (d :: remove_overlaps ls) ->
+  ~ ForallOrdPairs no_common_char ks.
+Print Assumptions C13_maximal.
+
+(* the exact picture for well-formed spans: a dropped lint could be added back without conflict iff it is zero-width *)
+Theorem C13_maximal_iff : forall ls d, Forall lwf ls -> In d (dropped ls) ->
+  (ForallOrdPairs no_common_char (d :: remove_overlaps ls) <-> lstart d = lend d).
+Proof. exact ro_maximal_iff. Qed.
+Check C13_maximal_iff : forall ls d, Forall lwf ls -> In d (dropped ls) ->
+  (ForallOrdPairs no_common_char (d :: remove_overlaps ls) <-> lstart d = lend d).
+Print Assumptions C13_maximal_iff.
+
+(* counter-examples to unrestricted maximality (NOT violations of C13's text): [2,2) at the start of [2,4) is dropped although [d; k] satisfies C13_disjoint's own predicate; [2,2) inside [0,4) shares no character with it *)
+Theorem C13_zero_width_not_maximal : (let k := mklint (mkspan 2 4) 0 in let d := mklint (mkspan 2 2) 1 in let ls := [k; d] in
+   Forall lwf ls /\ remove_overlaps ls = [k] /\ dropped ls = [d] /\
+   ForallOrdPairs disjoint_pair (d :: remove_overlaps ls)) /\
+  (let k := mklint (mkspan 0 4) 0 in let d := mklint (mkspan 2 2) 1 in let ls := [d; k] in
+   Forall lwf ls /\ remove_overlaps ls = [k] /\ dropped ls = [d] /\
+   ForallOrdPairs no_common_char (d :: remove_overlaps ls) /\ overlaps (lspan k) (lspan d) = true).
+Proof. exact ro_zero_width_not_maximal. Qed.
+Check C13_zero_width_not_maximal : (let k := mklint (mkspan 2 4) 0 in let d := mklint (mkspan 2 2) 1 in let ls := [k; d] in
+   Forall lwf ls /\ remove_overlaps ls = [k] /\ dropped ls = [d] /\
+   ForallOrdPairs disjoint_pair (d :: remove_overlaps ls)) /\
+  (let k := mklint (mkspan 0 4) 0 in let d := mklint (mkspan 2 2) 1 in let ls := [d; k] in
+   Forall lwf ls /\ remove_overlaps ls = [k] /\ dropped ls = [d] /\
+   ForallOrdPairs no_common_char (d :: remove_overlaps ls) /\ overlaps (lspan k) (lspan d) = true).
+Print Assumptions C13_zero_width_not_maximal.
+
+(* the function the differential run against the harper-cli BINARY executes: --count prints the raw length, the empty list prints no report, otherwise the coloured characters of the report are exactly the characters covered by a kept lint (each once, increasing), one label per kept lint *)
+Theorem C13_cli_report_spec : forall count spans n rep,
+  let raw := number_from 0 (map pair_span spans) in
+  (run_cli_report count spans = (Some n, None) -> count = true /\ n = length spans) /\
+  (run_cli_report count spans = (None, None) -> count = false /\ spans = []) /\
+  (run_cli_report count spans = (None, Some rep) ->
+     count = false /\ spans <> [] /\
+     (forall c, In c (fst rep) <-> exists k, In k (remove_overlaps raw) /\ covers k c) /\
+     map snd (snd rep) = map lid (remove_overlaps raw) /\
+     (Forall lwf raw -> StronglySorted lt (fst rep))).
+Proof. exact cli_report_spec. Qed.
+Check C13_cli_report_spec : forall count spans n rep,
+  let raw := number_from 0 (map pair_span spans) in
+  (run_cli_report count spans = (Some n, None) -> count = true /\ n = length spans) /\
+  (run_cli_report count spans = (None, None) -> count = false /\ spans = []) /\
+  (run_cli_report count spans = (None, Some rep) ->
+     count = false /\ spans <> [] /\
+     (forall c, In c (fst rep) <-> exists k, In k (remove_overlaps raw) /\ covers k c) /\
+     map snd (snd rep) = map lid (remove_overlaps raw) /\
+     (Forall lwf raw -> StronglySorted lt (fst rep))).
+Print Assumptions C13_cli_report_spec.
+
+Example C13_maximal_nonvacuous :
+  let ls := [mklint (mkspan 0 4) 0; mklint (mkspan 3 6) 1; mklint (mkspan 4 5) 2] in
+  let d := mklint (mkspan 3 6) 1 in
+  Forall lwf ls /\ In d (dropped ls) /\ lstart d < lend d /\
+  map lid (remove_overlaps ls) = [0; 2] /\ Permutation [mklint (mkspan 0 4) 0; d; mklint (mkspan 4 5) 2] (d :: remove_overlaps ls).
+Proof. exact maximal_example. Qed.
+Example C13_cli_report_nonvacuous :
+  run_cli_report false [(5, 8); (0, 3); (6, 7); (3, 4)] = (None, Some ([0; 1; 2; 3; 5; 6; 7], [(1, 1); (3, 3); (6, 0)])) /\
+  run_cli_report true [(5, 8); (0, 3)] = (Some 2, None) /\ run_cli_report false [] = (None, None) /\
+  run_merge_ids [[(5, 8); (0, 3)]; [(6, 7)]; []; [(0, 3)]] = [1; 0].
+Proof. repeat split; vm_compute; reflexivity. Qed.
 
 (* non-vacuity of the phase-3 statements; observations that are NOT violations of C13 *)
 Example C13_callers_nonvacuous :
